@@ -38,6 +38,13 @@ class Layers:
         return self.names.index(n)
 
 
+NAME_SHAPES = ["t%d", "t%d", " t%d", "t%d ", "t%d\n(wm.T)", "\nt%d", "t%d\n", "\tt%d \n x"]
+
+
+def _tid(test):
+    return test._tid if hasattr(test, "_tid") else int(test.module[3:])
+
+
 def make_case_class(level, layer):
     ns = {"runTest": lambda self: None, "__str__": lambda self: self._name}
     if level is not None:
@@ -74,7 +81,10 @@ def gen_tree(rng, layers, depth, counter, opts_stub):
             if not on_class:
                 pool.append(cls)
         t = cls()
-        t._name = "t%d" % tid
+        # str(test) is what --test patterns see, exactly as it is: line feeds and white space at its edges included
+        t._name = NAME_SHAPES[tid % len(NAME_SHAPES) if rng.random() < 0.5 else 0] % tid
+        t._tid = tid
+        opts_stub.__dict__.setdefault("_names", {})[tid] = t._name
         if not on_class:
             if lvl is not None:
                 t.level = lvl
@@ -120,6 +130,13 @@ def statement_selected(spec, at_level, only_level, accepted):
     return res
 
 
+def _statement_accept(pats, name):
+    import re
+    pos = [p for p in pats if not p.startswith("!")]
+    neg = [p[1:] for p in pats if p.startswith("!")]
+    return (any(re.search(p, name) for p in pos) or (not pos and bool(neg))) and not any(re.search(p, name) for p in neg)
+
+
 def depth_of(spec):
     return 0 if spec["t"] != "node" else 1 + max([depth_of(k) for k in spec["kids"]] or [0])
 
@@ -161,43 +178,46 @@ def run_suites(ctx):
             at_level = rng.choice([0, -1, MAXSIZE, 2, -5])
             only = rng.choice([0, 1, 2, 3])
         pats = rng.choice([["."], ["t1"], ["!t1"], ["t[02468]$"], ["t1", "!t1[0-9]"], ["^t2$", "t3"], [".", "!t1"],
-                           ["!t[0-4]$", "."], [".", "t1", "!t2"]])
-        cases.append((trees, at_level, only, pats, counter[0]))
+                           ["!t[0-4]$", "."], [".", "t1", "!t2"], ["^t"], ["!^t"], ["\\d$"], ["!\\d$"], ["t\\d+.\\("],
+                           ["!\\n"], ["^ ", "x$"], ["!^\\s", "."], ["\\d \\(", "^t1$"], ["(?s)t.+T"], ["\\At\\d+\\Z"]])
+        cases.append((trees, at_level, only, pats, counter[0], dict(stub.__dict__.get("_names", {}))))
         if rng.random() < 0.3:
             # the same trees as a layer subprocess sees them (--resume-layer): the tests of its layer are the ones the
             # parent filed under that layer - the nearest declaration wins in every process
-            cases.append((trees, at_level, only, pats, counter[0], rng.choice(layers.names)))
+            cases.append((trees, at_level, only, pats, counter[0], dict(stub.__dict__.get("_names", {})),
+                          rng.choice(layers.names)))
     queries = []
     reals = []
     child_of = {}
     for k_, c_ in enumerate(cases):
-        if len(c_) == 6:
-            child_of[k_] = c_[5]
-            cases[k_] = c_[:5]
-    for k_, (trees, at_level, only, pats, nt) in enumerate(cases):
+        if len(c_) == 7:
+            child_of[k_] = c_[6]
+            cases[k_] = c_[:6]
+    for k_, (trees, at_level, only, pats, nt, tnames) in enumerate(cases):
         options = types.SimpleNamespace(at_level=at_level, only_level=only, require_unique_ids=False,
                                         test=pats, module=["."], keepbytecode=True, post_mortem=False,
                                         resume_layer=child_of.get(k_), resume_number=1 if k_ in child_of else 0,
                                         processes=1)
         acc = build_filtering_func(pats)
-        accepted = [i for i in range(nt) if acc("t%d" % i)]
+        # the statement: a test is selected by the patterns iff they select its id - str(test) as it is
+        accepted = [i for i in range(nt) if _statement_accept(pats, tnames.get(i, "t%d" % i))]
         per = []
         for obj, spec in trees:
             got = []
             for test, lname in tests_from_suite(obj, options, accept=acc):
-                tid = int(str(test)[1:]) if not hasattr(test, "module") else int(test.module[3:])
+                tid = _tid(test)
                 got.append((tid, None if lname is None else layers.index_of_name(lname)))
             per.append(got)
         groups = []
         found = find_tests(options, found_suites=[t[0] for t in trees])
         for lname, suite in found.items():
-            ids = [int(str(t)[1:]) if not hasattr(t, "module") else int(t.module[3:]) for t in suite]
+            ids = [_tid(t) for t in suite]
             groups.append((None if lname is None else layers.index_of_name(lname), ids))
         reals.append((per, groups, accepted))
         queries.append({"op": "suites", "suites": [t[1] for t in trees], "at_level": at_level,
                         "only_level": only, "accepted": accepted, "unit": 0})
     answers = ctx.driver.batch(queries)
-    for k_, ((trees, at_level, only, pats, nt), (per, groups, accepted), ans) in enumerate(zip(cases, reals, answers)):
+    for k_, ((trees, at_level, only, pats, nt, tnames), (per, groups, accepted), ans) in enumerate(zip(cases, reals, answers)):
         specs = [t[1] for t in trees]
         if k_ in child_of:
             # a layer subprocess: only the tests of its own layer are compared (what it does with the others is its
@@ -216,7 +236,7 @@ def run_suites(ctx):
                 ctx.violation(bad, {"suites": specs, "at_level": at_level, "only_level": only, "patterns": pats,
                                     "resume_layer": child_of[k_], "real_per_suite": per}, signature="child-selection")
             continue
-        case = {"suites": specs, "at_level": at_level, "only_level": only, "patterns": pats,
+        case = {"suites": specs, "at_level": at_level, "only_level": only, "patterns": pats, "test_names": tnames,
                 "real_per_suite": per, "real_groups": groups, "model": ans}
         ctx.count(case["suites"] + [at_level, only, pats], nontrivial=any(nested_decl(s) for s in specs),
                   sample={"suites": specs, "at_level": at_level, "only_level": only, "patterns": pats,
